@@ -160,10 +160,9 @@ func pgpKey(info Info, data []byte) (Info, error) {
 	sort.Strings(names)
 	for _, name := range names {
 		i := e.Identities[name]
+		// only the self-signature speaks for the key; i.Signatures holds certifications by other keys (unverified),
+		// whose creation time, missing key flags and missing expiry say nothing about this key
 		attrs := gpgSignatureAttributes(i.SelfSignature, e.PrimaryKey.CreationTime)
-		for _, s := range i.Signatures {
-			attrs = append(attrs, gpgSignatureAttributes(s, e.PrimaryKey.CreationTime)...)
-		}
 		info.Children = append(info.Children, Info{
 			Description: i.Name,
 			Attributes:  attrs,
